@@ -117,6 +117,26 @@ class GhostConn(object):
     def rollback(self):
         Ctx.current.effect("rollback")
 
+    def close(self):
+        Ctx.current.effect("close")
+
+    def executemany(self, query, rows):
+        return self.cursor().executemany(query, rows)
+
+    def executescript(self, script):
+        return self.cursor().executescript(script)
+
+    def __enter__(self):
+        return self
+
+    def __exit__(self, et, ev, tb):
+        # sqlite3 connection as a context manager: commit on success, rollback on error; never closes
+        if et is None:
+            self.commit()
+        else:
+            self.rollback()
+        return False
+
     def result_rows(self, cur):
         if self.result_for is None or cur.last is None:
             return []
